@@ -51,6 +51,9 @@ pub struct GTarget {
     pub ra: f64,
     pub rb: f64,
     pub c: f64,
+    /// additive constant of the log-density (an unnormalised density may carry any): gradient-free,
+    /// but it sets the magnitude at which energies are compared
+    pub offset: f64,
     /// evaluation counter (hang detector: a transition may not evaluate the target unboundedly often)
     pub evals: Arc<AtomicU64>,
     pub eval_budget: u64,
@@ -60,11 +63,11 @@ pub const EVAL_BUDGET_MSG: &str = "VERIF-EVAL-BUDGET exceeded: unbounded traject
 
 impl GTarget {
     pub fn describe(&self) -> Value {
-        json!({"kind": format!("{:?}", self.kind), "d": self.d, "nu": self.nu, "a": self.ra, "b": self.rb, "c": self.c, "mu": self.mu, "precision_head": self.a.iter().take(9).collect::<Vec<_>>()})
+        json!({"kind": format!("{:?}", self.kind), "d": self.d, "nu": self.nu, "a": self.ra, "b": self.rb, "c": self.c, "offset": self.offset, "mu": self.mu, "precision_head": self.a.iter().take(9).collect::<Vec<_>>()})
     }
 
     pub fn new(kind: GKind, d: usize) -> Self {
-        GTarget { kind, d, a: vec![], mu: vec![0.0; d], nu: 3.0, ra: 1.0, rb: 10.0, c: 1.0, evals: Arc::new(AtomicU64::new(0)), eval_budget: u64::MAX }
+        GTarget { kind, d, a: vec![], mu: vec![0.0; d], nu: 3.0, ra: 1.0, rb: 10.0, c: 1.0, offset: 0.0, evals: Arc::new(AtomicU64::new(0)), eval_budget: u64::MAX }
     }
 
     /// random SPD precision with condition number up to `cond`
@@ -123,6 +126,10 @@ impl GTarget {
     }
 
     pub fn logp(&self, x: &[f64]) -> f64 {
+        self.logp0(x) + self.offset
+    }
+
+    fn logp0(&self, x: &[f64]) -> f64 {
         let d = self.d;
         match self.kind {
             GKind::LibGauss2D => {
@@ -229,6 +236,15 @@ impl GTarget {
 
     // ---------------------------------------------------------------- burn side
     pub fn batch<B: AutodiffBackend>(&self, x: Tensor<B, 2>) -> Tensor<B, 1> {
+        let lp = self.batch0(x);
+        if self.offset != 0.0 {
+            lp.add_scalar(self.offset)
+        } else {
+            lp
+        }
+    }
+
+    fn batch0<B: AutodiffBackend>(&self, x: Tensor<B, 2>) -> Tensor<B, 1> {
         self.bump();
         let dev = x.device();
         let n = x.dims()[0];
